@@ -2,6 +2,7 @@ package eng
 
 import (
 	"fmt"
+	"sort"
 	"strings"
 	"unicode/utf8"
 
@@ -104,10 +105,21 @@ func runC10(c *Ctx) {
 		live := s.LivePatterns()
 		if len(live) > 0 && r.Chance(1, 4) {
 			p := ref.Pick(r, live)
-			if r.Bool() {
+			switch r.Intn(3) {
+			case 0:
 				s.Remove(p, Via{})
-			} else {
+			case 1:
 				s.Remove(p, Via{}, "GET")
+			default: // every live method by name: the route dies, its node may stay as the prefix of others
+				var ms []string
+				for m := range s.Live[p].M {
+					ms = append(ms, m)
+				}
+				sort.Strings(ms)
+				for _, m := range ms {
+					s.Remove(p, Via{}, m)
+				}
+				c.Class("route_emptied_by_method_removal")
 			}
 			continue
 		}
@@ -303,7 +315,7 @@ func init() {
 	Register(&Engine{
 		ID:       "C10",
 		Anchors:  []string{"tree.go:URL", "syntax.go:Interceptors.URL", "segment.go:Segment.Valid", "router.go:URL", "mux.go:URL"},
-		Cases:    func(t string) int { return map[string]int{"quick": 800, "thorough": 60000}[t] },
+		Cases:    func(t string) int { return map[string]int{"quick": 3000, "thorough": 80000}[t] },
 		Run:      runC10,
 		Directed: c10Directed,
 		Rule: "case = router (random interceptor set and URL domain) with a table reached by a Handle/Remove history; 60 URL calls over pattern classes {live, dead, prefix-of-live, malformed x4, fresh} x params classes {all present, empty, one missing, extras} x tricky values x strict, through mux.URL, Router.URL, Prefix.URL, Resource.URL; plus 40 dispatches whose (pattern, captured params) must rebuild the request path; " +
